@@ -1075,7 +1075,10 @@ impl<'a> GeneratorState<'a> {
                 let v = self.compiler_state.get_variable(name);
                 match v.var_type {
                     VariableType::CharPtr => {
-                        self.asm(STA, &ExprType::Absolute(name.clone(), true, 0), pos, false)?;
+                        self.protected = true;
+                        let ret = self.asm(STA, &ExprType::Absolute(name.clone(), true, 0), pos, false);
+                        self.protected = false;
+                        ret?;
                         Ok(())
                     }
                     _ => Err(self
